@@ -37,8 +37,31 @@ func genHistory(ts *sim.Tapes, prop, tier string, reopen bool) (*work.Program, w
 		p.NoBigValues = true
 	}
 	prog := work.GenProgram(ts, cfg, p)
-	prog.Steps = append(prog.Steps, work.Step{Kind: "tx", Tx: &work.Txn{Mode: "update", End: "commit", Ops: []work.Op{
-		{Kind: "mkbi", Key: "last"}, {Kind: "nextseq", Path: []string{"last"}}}}})
+	last := &work.Txn{Mode: "update", End: "commit", Ops: []work.Op{
+		{Kind: "mkbi", Key: "last"}, {Kind: "nextseq", Path: []string{"last"}}}}
+	if sw.Chance(1, 3) {
+		// a top-level bucket whose name is the path of an existing nested bucket joined by a separator
+		// (tools that flatten bucket paths into strings must not confuse the two)
+		m := work.FinalModel(prog)
+		done := false
+		for _, k1 := range m.Keys() {
+			if e1 := m.M[k1]; e1.B != nil && !done {
+				for _, k2 := range e1.B.Keys() {
+					if e2 := e1.B.M[k2]; e2.B != nil {
+						for i, sep := range []string{"/", "\x00", "."} {
+							name := k1 + sep + k2
+							last.Ops = append(last.Ops, work.Op{Kind: "mkbi", Key: name},
+								work.Op{Kind: "put", Path: []string{name}, Key: "joined-name", VLen: 5 + i, VTag: uint32(830000 + i)},
+								work.Op{Kind: "put", Path: []string{k1, k2}, Key: "nested-path", VLen: 9 + i, VTag: uint32(831000 + i)})
+						}
+						done = true
+						break
+					}
+				}
+			}
+		}
+	}
+	prog.Steps = append(prog.Steps, work.Step{Kind: "tx", Tx: last})
 	return prog, cfg
 }
 
